@@ -76,6 +76,7 @@ type Case struct {
 	Params      []KV   `json:"params"`
 	Accept      string `json:"accept,omitempty"`
 	Body        string `json:"body,omitempty"` // raw POST body (else the parameters are sent as a form)
+	BodyHex     string `json:"body_hex,omitempty"` // raw POST body in hex (protobuf: not valid UTF-8, JSON transport would mangle it)
 	ContentType string `json:"ctype,omitempty"`
 	WaitMs      int    `json:"wait_ms,omitempty"` // how long goroutines may take to wind down after the response (default 900)
 	// the client goes away: in-process, the ResponseWriter fails (and the request context is cancelled) once this many
@@ -177,6 +178,9 @@ func buildRequest(c *Case, ctx context.Context) *http.Request {
 	method := c.Method
 	if method == "" {
 		method = "GET"
+	}
+	if method == "POST" && c.BodyHex != "" {
+		c.Body = unhex(c.BodyHex)
 	}
 	if method == "POST" && c.Body != "" {
 		body = bytes.NewReader([]byte(c.Body))
